@@ -27,6 +27,14 @@ pub fn variants() -> Vec<Variant> {
     ]
 }
 
+/// the same presentation with the other bullet character and the other ordered delimiter
+pub fn other_markers(v: &Variant) -> Variant {
+    let mut o = v.clone();
+    o.bullet = if v.bullet == '-' { '*' } else { '-' };
+    o.ordered_paren = !v.ordered_paren;
+    o
+}
+
 pub fn variant(name: &str) -> Variant {
     variants().into_iter().find(|v| v.name == name).unwrap_or_else(|| variants()[0].clone())
 }
@@ -110,8 +118,11 @@ fn has_break(toks: &[Tok]) -> bool {
 /// render a sequence of sibling blocks to lines (no trailing blank line)
 pub fn blocks(bs: &[Block], v: &Variant, tight_ctx: bool) -> Vec<String> {
     let mut out: Vec<String> = vec![];
+    let mut alt = false;
     for (i, b) in bs.iter().enumerate() {
-        let lines = block(b, v, i > 0 && bs[i - 1].k == "P");
+        // two lists of the same kind in a row are two lists only if their markers differ
+        alt = i > 0 && (b.k == "BL" || b.k == "OL") && bs[i - 1].k == b.k && !alt;
+        let lines = if alt { block(b, &other_markers(v), i > 0 && bs[i - 1].k == "P") } else { block(b, v, i > 0 && bs[i - 1].k == "P") };
         if i > 0 {
             let tight_ok = tight_ctx && v.tight;
             if !tight_ok {
